@@ -463,6 +463,10 @@ pub struct Exec {
     /// tokio mode: budget units to spend at the start of the i-th task poll (cyclic)
     pub burn: Vec<u32>,
     pub task_polls: usize,
+    /// threaded scenarios: this executor drives only this run (0-based); the others live on other threads
+    pub only: Option<usize>,
+    /// FnRefs are dropped on another thread
+    pub xdrop: bool,
 }
 
 thread_local! {
@@ -560,6 +564,8 @@ impl Exec {
             stream_yield: false,
             burn: Vec::new(),
             task_polls: 0,
+            only: None,
+            xdrop: false,
         }
     }
 
@@ -790,7 +796,11 @@ impl Exec {
                 match self.runs[r].held.remove(&f) {
                     Some(fn_ref) => {
                         self.w.borrow_mut().cur_run = run;
-                        let res = catch_unwind(AssertUnwindSafe(move || drop(fn_ref)));
+                        let res = if self.xdrop {
+                            std::thread::scope(|sc| sc.spawn(move || drop(fn_ref)).join())
+                        } else {
+                            catch_unwind(AssertUnwindSafe(move || drop(fn_ref)))
+                        };
                         let woken = self.runs[r].cur_flag().get();
                         self.ev(json!({"ev":"drop_ref","run":run,"f":f,"woken":woken}));
                         if let Err(p) = res {
@@ -981,6 +991,9 @@ impl Exec {
         let world = self.w.borrow();
         let mut next_call: Option<usize> = None;
         for (r, run) in self.runs.iter().enumerate() {
+            if self.only.is_some_and(|o| o != r) {
+                continue;
+            }
             let id = r + 1;
             let late_ok = x.late == 0 || world.ended_count(id) + run.yielded >= x.late;
             match run.status {
